@@ -181,8 +181,11 @@ class Builder(ABC):
 
             # Allow user to specify starting mass if desired, but otherwise let
             # the trajectory builder calculate it.
+            # (The calculation also sets the trip fuel mass, which is needed
+            # whether or not the caller supplied a starting mass.)
+            calculated_mass = self.calc_starting_mass()
             if self.starting_mass is None:
-                self.starting_mass = self.calc_starting_mass()
+                self.starting_mass = calculated_mass
             assert self.starting_mass is not None
 
             # Do the simulation...
